@@ -230,7 +230,7 @@ def run(ck, facts, tier):
         edges = cfg.bool_edges(trace_is_call("Vec::is_empty"), want=True)
         sites = cfg.call_blocks("Inverter::new") + cfg.call_blocks("try_fold_with")
         n = guard_sites(ck, R, inv, sites, edges, "Inverter fold", "free_vars.is_empty()")
-        ck.floor(R, "invert.fold-sites", n, 2)
+        ck.floor(R, "invert.fold-sites", n, 1)
         dominated_by_calls(ck, R, inv, "Inverter::new", "InferenceTable::canonicalize", "Inverter::new", "canonicalize(value)")
 
     R = "C16.UCOLLECT-ALL"
